@@ -108,7 +108,26 @@ class Scenario:
     # measurements
     # ------------------------------------------------------------------
     def measure_std(self, std, f):
-        return self.enet[f].measure(std.S_full(f, self.p))
+        M = self.enet[f].measure(std.S_full(f, self.p))
+        nz = getattr(std, "noise", None)
+        if nz is not None:
+            M = M + nz[f]
+        return M
+
+    def add_noise(self, sigma, rng=None):
+        """fixed additive measurement noise per standard (kept with the
+        standard so that related scenarios see identical measurements)"""
+        rng = rng or self.rng
+        for st in self.stds:
+            st.noise = [(rng.standard_normal((self.r, self.c)) +
+                         1j * rng.standard_normal((self.r, self.c))) *
+                        (sigma / np.sqrt(2.0)) for _ in range(self.F)]
+
+    def reset_vars(self):
+        for st in self.stds:
+            for row in st.sp:
+                for prm in row:
+                    prm.var = None
 
     def measure_noleak(self, std, f):
         """measurement with the outside-of-system leakage terms removed"""
